@@ -67,7 +67,9 @@ fn vz<D: poulpy_hal::layouts::DataRef>(v: &VecZnx<D>) -> Dims {
 }
 
 fn mz<D: poulpy_hal::layouts::DataRef>(m: &MatZnx<D>) -> Dims {
-    [m.n() as u64, (m.rows() * m.cols_in() * m.cols_out()) as u64, m.size() as u64, m.size() as u64, m.data().as_ref().len() as u64]
+    // (an accepted empty matrix may carry huge row / column counts: saturate instead of overflowing)
+    let polys = (m.rows() as u128 * m.cols_in() as u128).saturating_mul(m.cols_out() as u128).min(u64::MAX as u128) as u64;
+    [m.n() as u64, polys, m.size() as u64, m.size() as u64, m.data().as_ref().len() as u64]
 }
 
 fn consistent(d: &Dims) -> Result<(), String> {
@@ -118,8 +120,8 @@ impl Subj for VecZnx<Vec<u8>> {
     }
     fn touch(&self) -> i64 {
         let mut s = 0i64;
-        for i in 0..self.cols {
-            for j in 0..self.size {
+        for i in 0..self.cols.min(1024) {
+            for j in 0..self.size.min(1024) {
                 s = s.wrapping_add(sum(self.at(i, j)));
             }
         }
@@ -156,11 +158,12 @@ impl Subj for MatZnx<Vec<u8>> {
     }
     fn touch(&self) -> i64 {
         let mut s = 0i64;
-        for r in 0..self.rows() {
-            for c in 0..self.cols_in() {
+        // (an accepted empty matrix may carry up to 2^16 rows and columns: the loops are bounded like those of the wrappers)
+        for r in 0..self.rows().min(64) {
+            for c in 0..self.cols_in().min(64) {
                 let v = self.at(r, c);
-                for i in 0..v.cols {
-                    for j in 0..v.size {
+                for i in 0..v.cols.min(1024) {
+                    for j in 0..v.size.min(1024) {
                         s = s.wrapping_add(sum(v.at(i, j)));
                     }
                 }
@@ -173,8 +176,8 @@ impl Subj for MatZnx<Vec<u8>> {
 fn glwe_touch<D: poulpy_hal::layouts::DataRef>(g: &GLWE<D>) -> i64 {
     let v = g.data();
     let mut s = 0i64;
-    for i in 0..v.cols {
-        for j in 0..v.size {
+    for i in 0..v.cols.min(1024) {
+        for j in 0..v.size.min(1024) {
             s = s.wrapping_add(sum(v.at(i, j)));
         }
     }
@@ -236,8 +239,8 @@ impl Subj for GGLWE<Vec<u8>> {
         for r in 0..m.rows().min(64) {
             for c in 0..m.cols_in().min(64) {
                 let v = m.at(r, c);
-                for i in 0..v.cols {
-                    for j in 0..v.size {
+                for i in 0..v.cols.min(1024) {
+                    for j in 0..v.size.min(1024) {
                         s = s.wrapping_add(sum(v.at(i, j)));
                     }
                 }
@@ -393,6 +396,9 @@ pub struct Case {
     pub recv: u8,
     pub fault: Fault,
     pub seed: u64,
+    /// coverage-guided fuzzing: the stream handed to `read_from`, replacing the (faulted) valid stream
+    #[serde(default)]
+    pub raw: Option<Vec<u8>>,
 }
 
 const DICT: [u64; 14] = [0, 1, 2, 3, 1 << 31, 1 << 32, 1 << 61, (1 << 61) + 1, u64::MAX, u64::MAX - 1, 8, 1 << 60, 1 << 58, 1 << 63];
@@ -474,7 +480,11 @@ fn run_subject<T: Subj>(c: &Case) -> Verdict {
     }
     let mut receiver = T::mk(&rp);
     receiver.fill_uniform(50, &mut src);
-    let fault_class = apply_fault(&mut bytes, c.fault);
+    let mut fault_class = apply_fault(&mut bytes, c.fault);
+    if let Some(r) = &c.raw {
+        bytes = r.clone();
+        fault_class = "raw_stream";
+    }
     let damaged = bytes != pristine;
     let infos_before = receiver.infos();
     let dims_before = receiver.dims();
@@ -594,6 +604,81 @@ pub const TYPES: &[(&str, Runner)] = &[
     ("LWESwitchingKeyCompressed", run_subject::<LWESwitchingKeyCompressed<Vec<u8>>>),
 ];
 
+/// Decodes a fuzz input: 14 parameter bytes (type, shape, receiver class, seed) followed by the stream
+/// handed to `read_from`.  An empty stream part means "the valid stream".
+pub fn case_from_fuzz_bytes(data: &[u8]) -> Option<Case> {
+    if data.len() < 14 {
+        return None;
+    }
+    let h = &data[..14];
+    let mut p = P { ty: h[0], log_n: h[1], n_lwe: h[2], base2k: h[3], extra: h[4], krem: h[5], rank: h[6], rank_out: h[7], dnum: h[8], dsize: h[9], cols: h[10] };
+    p.adapt();
+    let raw = if data.len() > 14 { Some(data[14..].to_vec()) } else { None };
+    Some(Case { p, recv: h[11], fault: Fault::None, seed: u16::from_le_bytes([h[12], h[13]]) as u64, raw })
+}
+
+/// Seed corpus for the fuzz target: for every type a few shapes, header + valid stream.
+pub fn fuzz_seed_corpus() -> Vec<(String, Vec<u8>)> {
+    let mut out = vec![];
+    for ty in 0..TYPES.len() as u8 {
+        for (i, shape) in [[1u8, 3, 8, 0, 0, 1, 1, 1, 1, 1], [3, 5, 12, 1, 3, 2, 1, 2, 1, 2], [2, 2, 17, 0, 5, 1, 2, 2, 2, 3]].iter().enumerate() {
+            let mut h = vec![ty];
+            h.extend_from_slice(shape);
+            h.extend_from_slice(&[(i % 3) as u8, 7, 0]);
+            let c = case_from_fuzz_bytes(&h).unwrap();
+            let bytes = pristine_stream(&c);
+            let mut f = h.clone();
+            f.extend(bytes);
+            out.push((format!("{}-{i}", TYPES[ty as usize].0), f));
+        }
+    }
+    out
+}
+
+fn pristine_of<T: Subj>(c: &Case) -> Vec<u8> {
+    let mut src = Source::new([c.seed as u8; 32]);
+    let mut original = T::mk(&c.p);
+    original.fill_uniform(50, &mut src);
+    let mut bytes = vec![];
+    original.write_to(&mut bytes).unwrap();
+    bytes
+}
+
+type Streamer = fn(&Case) -> Vec<u8>;
+
+pub const STREAMERS: &[Streamer] = &[
+    pristine_of::<VecZnx<Vec<u8>>>,
+    pristine_of::<ScalarZnx<Vec<u8>>>,
+    pristine_of::<MatZnx<Vec<u8>>>,
+    pristine_of::<GLWE<Vec<u8>>>,
+    pristine_of::<LWE<Vec<u8>>>,
+    pristine_of::<GGLWE<Vec<u8>>>,
+    pristine_of::<GGSW<Vec<u8>>>,
+    pristine_of::<Pk>,
+    pristine_of::<GLWESwitchingKey<Vec<u8>>>,
+    pristine_of::<GLWEAutomorphismKey<Vec<u8>>>,
+    pristine_of::<GLWETensorKey<Vec<u8>>>,
+    pristine_of::<GGLWEToGGSWKey<Vec<u8>>>,
+    pristine_of::<GLWEToLWEKey<Vec<u8>>>,
+    pristine_of::<LWEToGLWEKey<Vec<u8>>>,
+    pristine_of::<LWESwitchingKey<Vec<u8>>>,
+    pristine_of::<GLWECompressed<Vec<u8>>>,
+    pristine_of::<LWECompressed<Vec<u8>>>,
+    pristine_of::<GGLWECompressed<Vec<u8>>>,
+    pristine_of::<GGSWCompressed<Vec<u8>>>,
+    pristine_of::<GLWESwitchingKeyCompressed<Vec<u8>>>,
+    pristine_of::<GLWEAutomorphismKeyCompressed<Vec<u8>>>,
+    pristine_of::<GLWETensorKeyCompressed<Vec<u8>>>,
+    pristine_of::<GGLWEToGGSWKeyCompressed<Vec<u8>>>,
+    pristine_of::<GLWEToLWESwitchingKeyCompressed<Vec<u8>>>,
+    pristine_of::<LWEToGLWEKeyCompressed<Vec<u8>>>,
+    pristine_of::<LWESwitchingKeyCompressed<Vec<u8>>>,
+];
+
+pub fn pristine_stream(c: &Case) -> Vec<u8> {
+    (STREAMERS[c.p.ty as usize % STREAMERS.len()])(c)
+}
+
 pub fn test(c0: &Case) -> Verdict {
     let mut c = c0.clone();
     c.p.adapt();
@@ -636,7 +721,7 @@ fn fault_strategy() -> impl Strategy<Value = Fault> {
 }
 
 fn strategy() -> BoxedStrategy<Case> {
-    (p_strategy(), 0u8..3, fault_strategy(), any::<u64>()).prop_map(|(p, recv, fault, seed)| Case { p, recv, fault, seed }).boxed()
+    (p_strategy(), 0u8..3, fault_strategy(), any::<u64>()).prop_map(|(p, recv, fault, seed)| Case { p, recv, fault, seed, raw: None }).boxed()
 }
 
 /// every truncation point of small objects, for every type
@@ -663,6 +748,7 @@ fn truncation_blocks(max_len: usize) -> Vec<Vec<Case>> {
             recv: 0,
             fault: Fault::None,
             seed: 1,
+            raw: None,
         };
         let _ = probe;
         let mut block = vec![];
@@ -672,6 +758,7 @@ fn truncation_blocks(max_len: usize) -> Vec<Vec<Case>> {
                 recv: (cut % 3) as u8,
                 fault: Fault::Truncate { permille: 0, delta: 0 },
                 seed: cut as u64,
+                raw: None,
             });
         }
         blocks.push(block);
